@@ -55,8 +55,8 @@ class C08(Prop):
     judge_module = "FsParamsJudge"
     assumptions = [
         "27 value classes (17 string classes incl. quotes, backslashes, newlines, %, %s, %(a)s, $x, ?, ;, comment markers, injection "
-        "attempts, unicode, empty, NUL; int, bigint, negative, float, Decimal, bool, None, date, datetime, time) x 5 positions "
-        "(VALUES, WHERE, IN list, select list, LIKE) x paramstyles (pyformat sequence / dict, format, qmark, executemany) x same / fresh cursor",
+        "attempts, unicode, empty, NUL; int, bigint, negative, float, Decimal, bool, None, date, datetime, time) x 6 positions "
+        "(VALUES, WHERE, IN list, one placeholder bound to a list, select list, LIKE) x paramstyles (pyformat sequence / dict, format, qmark, executemany) x same / fresh cursor",
         "each class is concretised from a fixed edge list, one member chosen by seed per case: inside a class coverage is sampled",
         "the equality verdict ('same') is computed by the driver on the concrete Python value; the specification states what must hold",
     ]
@@ -153,6 +153,10 @@ class C08(Prop):
                     other = rng.choice(vals)
                     got = cur.execute(f"select count(*) from {tname} where v in ({ph(style, form, 0)}, {ph(style, form, 1)})",
                                       pack(style, form, [other, v])).fetchall()
+                    obs["same"] = got == [(1 if v is not None else 0,)]
+                elif pos == "listparam":
+                    other = rng.choice(vals)
+                    got = cur.execute(f"select count(*) from {tname} where v in ({ph(style, form)})", pack(style, form, [[other, v]])).fetchall()
                     obs["same"] = got == [(1 if v is not None else 0,)]
                 elif pos == "select":
                     got = cur.execute(f"select {ph(style, form)} as x", pack(style, form, [v])).fetchall()
